@@ -45,6 +45,11 @@ def classify(prog, dev):
 
 
 def main():
+    import check
+    ok, log = check.build()
+    if not ok:
+        print("build failed", log[-2000:])
+        return
     path = os.path.join(ROOT, "known_findings.json")
     cur = json.load(open(path)) if os.path.exists(path) else {"known": [], "fixed": []}
     entries = {}
